@@ -773,9 +773,31 @@ func aliasReflective(w *World) {
 		}
 		return sb.String()
 	}
+	// what the model holds (and, below, whatever it hands out) feeds the generator's dictionary: requests that name
+	// things that exist
+	harvest := func() {
+		for _, x := range ms {
+			if x.server || !x.readOnly || strings.HasPrefix(x.m.Name, "Pull") || x.m.Type.NumIn() > 1 && !(x.m.Type.IsVariadic() && x.m.Type.NumIn() == 2) {
+				continue
+			}
+			res, pan := call(x, false)
+			if pan {
+				continue
+			}
+			var msgs []proto.Message
+			for _, r := range res {
+				collectMsgs(r, 3, &msgs)
+			}
+			for _, m := range msgs {
+				harvestStrings(m.ProtoReflect(), &p.dict, 3)
+			}
+		}
+		sort.Strings(p.dict)
+	}
 	nsub := 0
 	n := 2 + t.Choose(8)
 	w.Go("w", false, func(task *Task) {
+		harvest()
 		for i := 0; i < n; i++ {
 			task.Yield("op")
 			x := ms[t.Choose(len(ms))]
